@@ -50,6 +50,8 @@ type Scenario struct {
 	Who    string            `json:"who"`   // stop: party
 	After  int               `json:"after"` // stop: number of deliveries before Stop
 	Cross  bool              `json:"cross"` // equiv: also deliver the other universe's later messages
+	Diff   string            `json:"diff"`  // foreign: the one parameter in which the other session differs
+	From   string            `json:"from"`  // relabel: the real sender whose message is replayed under Byz's name
 }
 
 type viol struct {
@@ -261,6 +263,10 @@ func run(sc Scenario, seed string) (outcome, []sim.Event) {
 		r.fault(sess, label)
 	case "stop", "honest":
 		r.stop(sess, label)
+	case "foreign":
+		r.foreign(sess, label, seed)
+	case "relabel":
+		r.relabel(sess, label)
 	default:
 		fatal("unknown scenario kind %q", sc.Kind)
 	}
@@ -699,6 +705,183 @@ func (r *runner) fault(sess *protos.Session, label func(party.ID) string) {
 
 func sess2(su *setup) *protos.Session { return su.session([]byte("sid")) }
 
+// otherSession builds a session that differs from the observed one (sid "sid") in exactly one parameter.
+func (r *runner) otherSession(seed string) (*protos.Session, string) {
+	su := r.su
+	switch r.sc.Diff {
+	case "sid":
+		alts := [][]byte{nil, {}, []byte("si"), []byte("sid2"), []byte("sie")}
+		return su.session(alts[r.sc.Sched%len(alts)]), ""
+	case "proto":
+		twin := map[string]string{"frost-keygen": "taproot-keygen", "taproot-keygen": "frost-keygen"}[su.proto]
+		if twin == "" {
+			return nil, "no twin protocol"
+		}
+		return getSetup(twin, su.n, su.t, seed).session([]byte("sid")), ""
+	case "parties":
+		if su.cfgs != nil || su.n+1 > len(names) {
+			return nil, "participant set is fixed by the key material"
+		}
+		return getSetup(su.proto, su.n+1, su.t, seed).session([]byte("sid")), ""
+	case "threshold":
+		if su.cfgs != nil {
+			return nil, "threshold is fixed by the key material"
+		}
+		t2 := su.t + 1
+		if t2 > su.n-1 {
+			t2 = su.t - 1
+		}
+		if t2 < 0 || strings.HasPrefix(su.proto, "toy") || su.proto == "xor" {
+			return nil, "no other threshold"
+		}
+		return getSetup(su.proto, su.n, t2, seed).session([]byte("sid")), ""
+	case "material":
+		if !strings.HasPrefix(su.proto, "cmp-") || su.cfgs == nil {
+			return nil, "only CMP binds sessions to the key material"
+		}
+		o := *su
+		o.cfgs = protos.DealCmp(su.ids, su.t, seed+"/other-material")
+		if su.proto == "cmp-presign-online" {
+			return nil, "presignature belongs to the material"
+		}
+		return o.session([]byte("sid")), ""
+	case "message":
+		if !su.sign || !strings.HasPrefix(su.proto, "cmp-") {
+			return nil, "no message"
+		}
+		o := *su
+		o.msg = []byte("another message hash to be signed")
+		return o.session([]byte("sid")), ""
+	case "presig":
+		if su.proto != "cmp-presign-online" {
+			return nil, "no presignature"
+		}
+		o := *su
+		pr, err := protos.Run(protos.CmpPresign(protos.CloneConfigs(su.cfgs), su.ids, []byte("pre2")), protos.RunOpts{Seed: seed + "/pre2"})
+		if err != nil || !pr.AllDone() {
+			return nil, "second presignature failed"
+		}
+		o.pres = map[party.ID]*ecdsa.PreSignature{}
+		for id, x := range pr.Results {
+			o.pres[id] = x.(*ecdsa.PreSignature)
+		}
+		return o.session([]byte("sid")), ""
+	}
+	return nil, "unknown diff"
+}
+
+// foreign: messages of a session that differs in one parameter are presented to the parties of the observed
+// (all honest) session at random points of its progress.
+func (r *runner) foreign(sess *protos.Session, label func(party.ID) string, seed string) {
+	e := r.e
+	other, why := r.otherSession(seed)
+	if other == nil {
+		r.out.Applicable = false
+		r.out.Why = why
+		return
+	}
+	or, err := protos.Run(other, protos.RunOpts{Seed: seed + "/other/" + label("x")})
+	if err != nil {
+		r.out.Applicable = false
+		r.out.Why = "the other session could not be run: " + err.Error()
+		return
+	}
+	var alien []*protocol.Message
+	for _, p := range or.Engine.Parties {
+		alien = append(alien, p.Emitted...)
+	}
+	if len(alien) == 0 {
+		r.out.Applicable = false
+		r.out.Why = "the other session produced no messages"
+		return
+	}
+	for _, id := range r.su.ids {
+		e.AddParty(id, r.newParty(sess, id, label(id)))
+	}
+	present := func() {
+		m := alien[r.rng.Intn(len(alien))]
+		// to its addressee if that party exists here, else to anybody
+		var cands []party.ID
+		for _, id := range r.su.ids {
+			if m.IsFor(id) {
+				cands = append(cands, id)
+			}
+		}
+		if len(cands) == 0 {
+			cands = r.su.ids
+		}
+		to := cands[r.rng.Intn(len(cands))]
+		n0 := len(e.Events)
+		r.deliver(to, m, "foreign")
+		r.out.Reached = true
+		if len(e.Events) > n0 {
+			ev := e.Events[len(e.Events)-1]
+			if ev.Ev == "Accept" && (ev.Can || !ev.Ign) {
+				r.violate("C09", "foreign-accepted", fmt.Sprintf("a message of a session differing in %s (round %d from %s) was presented to %s: CanAccept=%v, state unchanged=%v", r.sc.Diff, m.RoundNumber, m.From, to, ev.Can, ev.Ign), "")
+			}
+		}
+	}
+	r.loop(func(d *sim.Delivery) bool {
+		for k := r.rng.Intn(3); k > 0; k-- {
+			present()
+		}
+		return false
+	})
+	for k := 0; k < 4; k++ {
+		present()
+	}
+	// the observed session must be unaffected
+	for _, id := range r.honest {
+		if st := e.Parties[id].Status(); st.St != "done" {
+			r.violate("C09", "session-disturbed", fmt.Sprintf("party %s of the observed all-honest session ended %s (%v) although only foreign messages were injected", id, st.St, st.Err), "")
+		}
+	}
+}
+
+// relabel: a message of party From is presented to a recipient under the name of party Byz before Byz's own one.
+func (r *runner) relabel(sess *protos.Session, label func(party.ID) string) {
+	e := r.e
+	k := r.byz
+	from := party.ID(r.sc.From)
+	for _, id := range r.su.ids {
+		e.AddParty(id, r.newParty(sess, id, label(id)))
+	}
+	var victim party.ID
+	done := false
+	r.loop(func(d *sim.Delivery) bool {
+		m := d.Msg
+		if done || m.From != from || int(m.RoundNumber) != r.sc.Round || m.Broadcast != r.sc.B || d.To == k || d.To == from {
+			return false
+		}
+		// deliver the genuine message, then the same content under k's name (k's own message for that slot must not have arrived yet)
+		if containsStored(e, d.To, int(m.RoundNumber), m.Broadcast, k) {
+			return false
+		}
+		done = true
+		victim = d.To
+		r.deliver(d.To, m, "ok")
+		fm := sim.CloneMsg(m)
+		fm.From = k
+		e.InheritLabels(fm, m)
+		e.SetVar(fm, "mut")
+		r.out.Reached = true
+		r.deliver(d.To, fm, "ok")
+		return true
+	})
+	if !done {
+		r.out.Applicable = false
+		r.out.Why = "no such message, or the impersonated party's own message always arrived first"
+		return
+	}
+	if st := e.Parties[victim].Status(); st.St == "done" {
+		r.violate("C09", "relabelled-accepted", fmt.Sprintf("party %s completed although a message made by %s (round %d) was stored under the name of %s", victim, from, r.sc.Round, k), "")
+	}
+}
+
+func containsStored(e *sim.Engine, inst party.ID, rd int, b bool, from party.ID) bool {
+	return e.HasStored(inst, rd, b, from)
+}
+
 // discover prints the message structure of a protocol: per (round, kind) the leaves of the content.
 func discover(proto string, n, t int, seed string) {
 	su := getSetup(proto, n, t, seed)
@@ -834,6 +1017,12 @@ func main() {
 			ev.Trace = s.ID
 			if ev.Em == nil {
 				ev.Em = []sim.Em{}
+			}
+			if ev.Post.Culp == nil {
+				ev.Post.Culp = []string{}
+			}
+			if ev.Res == "" {
+				ev.Res = "none"
 			}
 			g.enc.Encode(ev)
 			g.lines++
